@@ -1958,7 +1958,7 @@ static QINLINE qthread_t *qthread_thread_new(const qthread_f f,
         case QTHREAD_NULL_TASK_ID:
             /* yes, this is wrapping around, but... thread_id should be prevented from being NULL */
             t->thread_id = qthread_internal_incr(&(qlib->max_thread_id),
-                                                 &qlib->max_thread_id_lock, 2);
+                                                 &qlib->max_thread_id_lock, 2) + 1;
             break;
         case QTHREAD_NON_TASK_ID:
             /* yes, this is wrapping around, but... thread_id should be prevented from being NON */
@@ -3011,7 +3011,7 @@ unsigned int API_FUNC qthread_id(void)
     if (QTHREAD_UNLIKELY(t->thread_id == QTHREAD_NULL_TASK_ID)) {
         /* yes, this is wrapping around, but... thread_id should be prevented from being NULL */
         t->thread_id = qthread_internal_incr(&(qlib->max_thread_id),
-                                             &qlib->max_thread_id_lock, 2);
+                                             &qlib->max_thread_id_lock, 2) + 1;
     } else if (QTHREAD_UNLIKELY(t->thread_id == QTHREAD_NON_TASK_ID)) {
         /* yes, this is wrapping around, but... thread_id should be prevented from being NON */
         t->thread_id = qthread_internal_incr(&(qlib->max_thread_id),
